@@ -34,6 +34,8 @@ POLICIES = {
     "nosession": dict(session="refuse"),
     "notcp": dict(),
     "nofclose": dict(fclose="refuse"),
+    # legal but unusual identifiers: session handles and connection ids with the top bit set, and the smallest ones
+    "hiids": dict(session_handles=[0x80000001, 0xFFFFFFFE, 0x7FFFFFFF, 0x80000000], conn_ids=[0x80000000, 0xFFFFFFFF, 0x00000001, 0x7FFFFFFF]),
 }
 FAULT_KINDS = ("send_err", "send_partial", "recv_err", "recv_close", "recv_trunc")
 EVENTS = {
